@@ -114,7 +114,7 @@ def _digits_recog(repo, func, name):
                 cs, lo, hi = regexset.single_class(rx.pattern, rx.flags)
             except AnalysisError:
                 return None
-            if meth == "fullmatch" and cs <= spec.DIGIT and lo >= 1:
+            if regexset.is_full(rx.pattern, rx.flags, meth) and cs <= spec.DIGIT and lo >= 1:
                 return -1
             if meth == "search" and (set(range(256)) - cs) <= spec.DIGIT:
                 return +1
@@ -293,7 +293,7 @@ def token_recog(repo, func, argname=None, require_tchar=True):
         rx, q, meth, arg = rt
         if argname is not None and not any(isinstance(x, (ast.Name, ast.Attribute)) and tail(x) == argname for x in ast.walk(arg)):
             return None
-        if meth != "fullmatch":
+        if not regexset.is_full(rx.pattern, rx.flags, meth):
             return None
         try:
             cs, lo, hi = regexset.single_class(rx.pattern, rx.flags)
@@ -320,7 +320,7 @@ def forbidden_recog(repo, func, argname=None):
             return None
         if meth == "search" and spec.FORBIDDEN_IN_HEAD <= cs and hi in (1, None) and lo >= 1:
             return +1
-        if meth == "fullmatch" and not (cs & spec.FORBIDDEN_IN_HEAD):
+        if regexset.is_full(rx.pattern, rx.flags, meth) and not (cs & spec.FORBIDDEN_IN_HEAD):
             return -1
         return None
     return recog
@@ -430,7 +430,7 @@ def hex_recog(repo, func, name):
                 cs, lo, hi = regexset.single_class(rx_pattern(rt[0]), rt[0].flags)
             except AnalysisError:
                 return None
-            if rt[2] == "fullmatch" and cs <= spec.HEXDIG:
+            if regexset.is_full(rx_pattern(rt[0]), rt[0].flags, rt[2]) and cs <= spec.HEXDIG:
                 return -1
         return None
 
@@ -790,8 +790,8 @@ def r4(ctx):
                 if rt:
                     n_sites += 1
                     rx, rq, meth, arg = rt
-                    if meth == "fullmatch":
-                        ctx.ok("C01.R4", site(f, c), "validator applied with fullmatch")
+                    if regexset.is_full(rx.pattern, rx.flags, meth):
+                        ctx.ok("C01.R4", site(f, c), "validator applied to the whole string (fullmatch, or match/search of an anchored pattern)")
                     elif meth == "search":
                         tn = [n for n in f.cfg.nodes_containing(c) if n.kind == "test"]
                         okk = bool(tn) and all(f.cfg.exit not in f.cfg.reachable([(t, "true")], follow_exc=True, stop=None) or _true_branch_raises(f, t) for t in tn)
@@ -863,7 +863,7 @@ def _check_int(ctx, repo, f, c):
         for n in g.stmts(ast.Assign):
             if any(isinstance(t, ast.Name) and t.id == mv for t in n.ast.targets):
                 rt = regex_test(repo, f, n.ast.value)
-                if rt and rt[2] == "fullmatch":
+                if rt and regexset.is_full(rt[0].pattern, rt[0].flags, rt[2]):
                     try:
                         groups_ok = all(it[1] & frozenset(range(256)) <= spec.DIGIT for it in regexset.shape(rt[0].pattern, rt[0].flags)
                                         if it[0] == "class" and len(it[1]) > 1)
